@@ -80,7 +80,8 @@ import (
 //  (S5) Control flow: if/else, for (3-clause, condition-only, range), switch without fallthrough (an
 //       if/else chain; all case expressions are reported — over-reporting; an unlabelled `break` that
 //       belongs to a switch fails because `.brk` means "leave the loop"), return, unlabelled
-//       break/continue.  Labels, goto, fallthrough, select, type switches fail.
+//       break/continue; `defer <alloc>.mutex.Release()` as a top-level statement of a body (see `body`).
+//       Labels, goto, fallthrough, select, type switches, any other defer, go fail.
 
 // State of the allocator that AllocFrame/FreeFrame change (must be accessed under the lock) ...
 var c09Mutable = map[string]bool{"freeCount": true, "reservedPages": true, "totalPages": true}
@@ -95,6 +96,7 @@ type c09Env struct {
 	alias    map[string][]string // names that denote allocator state (receiver, tracked locals): name -> path
 	tailOnly bool                // body spliced into a caller: `return` is understood in tail position only
 	inSwitch int                 // switch statements entered since the innermost loop
+	deferRel bool                // `defer <alloc>.mutex.Release()` has been executed at the top level of the body
 }
 
 type c09Extract struct {
@@ -470,7 +472,7 @@ func (x *c09Extract) inline(at *ast.CallExpr, fd *ast.FuncDecl, recv []string, a
 				}
 			}
 		}
-		return x.stmt(fd.Body, true)
+		return x.body(fd.Body)
 	}
 	sk := run(false)
 	switch {
@@ -582,6 +584,27 @@ func (x *c09Extract) block(list []ast.Stmt, tail bool) string {
 	var out []string
 	for k, t := range list {
 		out = append(out, x.stmt(t, tail && k == len(list)-1))
+	}
+	return c09Block(out)
+}
+
+// body translates a function body.  `defer <alloc>.mutex.Release()` as an unconditional top-level statement is
+// understood exactly: from there on every `return` evaluates its results, releases, returns, and so does
+// falling off the end (statements in front of the defer are translated before the flag is set).
+func (x *c09Extract) body(b *ast.BlockStmt) string {
+	var out []string
+	for k, t := range b.List {
+		if d, ok := t.(*ast.DeferStmt); ok && x.mutexCall(&ast.ExprStmt{X: d.Call}) == ".release" {
+			if x.env.deferRel || x.env.tailOnly {
+				x.fail(t, "this use of defer is not understood")
+			}
+			x.env.deferRel = true
+			continue
+		}
+		out = append(out, x.stmt(t, k == len(b.List)-1))
+	}
+	if x.env.deferRel {
+		out = append(out, ".release")
 	}
 	return c09Block(out)
 }
@@ -725,6 +748,9 @@ func (x *c09Extract) stmt(s ast.Stmt, tail bool) string {
 				x.fail(s, "a helper that handles the lock returns from the middle of its body (not understood)")
 			}
 			return res
+		}
+		if x.env.deferRel {
+			return c09Block([]string{res, ".release", ".ret"})
 		}
 		return c09Block([]string{res, ".ret"})
 	case *ast.BranchStmt:
@@ -936,7 +962,7 @@ func c09Facts() (text string, err error) {
 			}
 		}
 		fmt.Fprintf(&b, "/-- `%s.%s` (%s) -/\ndef %s : Skel :=\n  %s\n", x.typ, m.goName,
-			filepath.Base(fset.Position(fd.Pos()).Filename), m.leanName, x.stmt(fd.Body, true))
+			filepath.Base(fset.Position(fd.Pos()).Filename), m.leanName, x.body(fd.Body))
 	}
 	var pk []string
 	for n := range x.peeked {
